@@ -36,9 +36,34 @@ type mutant struct {
 	H string `json:"h,omitempty"` // header edit name
 	I int    `json:"i,omitempty"` // header edit index
 	S int    `json:"s,omitempty"` // write split for the install (0 whole, -1 header boundary, else chunk size)
+	V int64  `json:"v,omitempty"` // header edit operand (size delta)
+	// K == "pair": a data edit (DK at P/B, inside one file of the stream)
+	// together with header edits (Hs) that would make the altered data look
+	// consistent to a receiver that trusts the edited field: "a header that
+	// does not match the data" as (header edit, data edit) pairs.
+	DK string   `json:"dk,omitempty"`
+	Hs []mutant `json:"hs,omitempty"`
 }
 
-func (m mutant) String() string { return fmt.Sprintf("%s@%d/%d%s#%d", m.K, m.P, m.B, m.H, m.I) }
+func (m mutant) String() string {
+	if m.K == "pair" {
+		return fmt.Sprintf("pair[%s+%s@%d/%d]", m.pairName(), m.DK, m.P, m.B)
+	}
+	return fmt.Sprintf("%s@%d/%d%s#%d", m.K, m.P, m.B, m.H, m.I)
+}
+
+// pairName names the header part of a compound mutant, e.g. "wal-crc-0#1,wal-size-add#1".
+func (m mutant) pairName() string {
+	var p []string
+	for _, h := range m.Hs {
+		n := h.H
+		if strings.HasPrefix(h.H, "wal-") {
+			n += fmt.Sprintf("#%d", h.I)
+		}
+		p = append(p, n)
+	}
+	return strings.Join(p, ",")
+}
 
 // headerEdits lists the edits applicable to a stream with nWAL WAL headers.
 func headerEdits(nWAL int) []mutant {
@@ -95,6 +120,23 @@ func apply(base []byte, m mutant) ([]byte, error) {
 			out = append(out, byte(i*37+1))
 		}
 		return out, nil
+	case "pair":
+		out := base
+		var err error
+		if m.DK != "" {
+			if out, err = apply(base, mutant{K: m.DK, P: m.P, B: m.B}); err != nil {
+				return nil, err
+			}
+		}
+		// header edits keep everything behind the header, so they are applied
+		// after the data edit (whose position lies behind the header)
+		for _, h := range m.Hs {
+			h.K = "hdr"
+			if out, err = apply(out, h); err != nil {
+				return nil, err
+			}
+		}
+		return out, nil
 	case "hdr":
 		hdr, he, _, err := snapgen.ParseStream(base)
 		if err != nil {
@@ -121,6 +163,14 @@ func apply(base []byte, m mutant) ([]byte, error) {
 			f.DbHeader.Crc32++
 		case "db-crc-1":
 			f.DbHeader.Crc32--
+		case "db-crc-0": // proto3: 0 and "field absent" are the same bytes
+			f.DbHeader.Crc32 = 0
+		case "wal-crc-0":
+			w().Crc32 = 0
+		case "db-size-add":
+			f.DbHeader.SizeBytes = uint64(int64(f.DbHeader.SizeBytes) + m.V)
+		case "wal-size-add":
+			w().SizeBytes = uint64(int64(w().SizeBytes) + m.V)
 		case "db-header-nil":
 			f.DbHeader = nil
 		case "version-2":
